@@ -122,12 +122,13 @@ def main():
         if fi is None:
             continue
         props = c.get('props') or []
-        mods = None
+        # the modules of EVERY property the contract serves (clauses merged in by later modules must be present)
+        mods = []
         for p_ in props:
-            if p_ in contracts.PROP_MODULES:
-                mods = contracts.PROP_MODULES[p_]
-                break
-        if mods is None:
+            for m_ in contracts.PROP_MODULES.get(p_, []):
+                if m_ not in mods:
+                    mods.append(m_)
+        if not mods:
             continue
         src_lines = fi.module.source.splitlines()
         first = fi.node.lineno
